@@ -427,3 +427,76 @@ Example c18p_without_the_delete_the_filter_writes :
     [(0, Some "eval"); (4, Some "evalro"); (5, Some "eval")] /\
   route (Some "eval") = Some script_rw.
 Proof. vm_compute. split; reflexivity. Qed.
+
+(* ======================================================================================== *)
+(* The reply path (Model/ScriptFlush.v): the script model's log is a buffer until netServe flushes it.
+   Micro-steps of all connections (Model/Script.v), reply writes and background flushes in any order;
+   the condition in front of the pre-reply flush is read from Gen/ReplyFlush.v (both reply blocks of
+   netServe), as is the fact that writeAOF raises the flag for every caller. *)
+From T38 Require Import Gen.ReplyFlush Model.ScriptFlush Proofs.ScriptFlushProofs.
+
+(* a reply that went out acknowledges the first n requests of connection u, and the file held fl
+   records at that moment: every record any of those requests put in the log - a plain write's one
+   record, the records an EVAL / EVALSHA / EVALNA script logged call by call - is among those fl, and
+   the file never shrinks. So a kill at any instant after the reply leaves them in the file
+   (c18s_crash_recovers_a_live_state then recovers a dataset that contains them). *)
+Theorem c18f_reply_sent_implies_records_in_file :
+  forall (S val herr : Type) (cname : cmd -> string) (handler : string -> S -> cmd -> S * (val + herr) * bool)
+         (e : env) (s0 : S), noupd_ok handler -> pure_ok handler ->
+  forall (progs : nat -> list (req val herr)) (ops : list fop) (u n fl : nat),
+  let f := frun cname handler e (finit s0 progs) ops in
+  In (u, (n, fl)) (f_sends f) ->
+  fl <= f_file f <= length (log (f_g f)) /\
+  forall i x, nth_error (log (f_g f)) i = Some x -> r_tid x = u -> r_rid x < n -> i < fl.
+Proof. exact reply_sent_implies_records_in_file. Qed.
+Print Assumptions c18f_reply_sent_implies_records_in_file.
+
+Theorem c18f_source_flushes_on_the_global_flag :
+  reply_flush_on_global_flag = true /\ flag_raised_in_writeaof = true.
+Proof. exact source_reply_flush. Qed.
+Print Assumptions c18f_source_flushes_on_the_global_flag.
+
+(* an EVAL with two writes: at the moment its reply goes out both records are in the file; before the
+   reply (the script is done, netServe has not written yet) nothing need be *)
+Example c18f_eval_reply_after_flush :
+  let p := fun t => match t with 0 => [kreq ["EVAL"; "<lua>"; "0"] two_sets] | _ => [] end in
+  let before := frun kcname khandler leader (finit [] p) (map FStep [0;0;0;0;0;0]) in
+  let after := fstep kcname khandler leader before (FReply 0) in
+  (length (log (f_g before)), f_file before, f_dirty before, f_sends before) = (2, 0, true, []) /\
+  (f_file after, f_dirty after, f_sends after) = (2, false, [(0, (1, 2))]).
+Proof. vm_compute. split; reflexivity. Qed.
+
+(* ======================================================================================== *)
+(* What borrowers leave in a pooled interpreter's global table (Model/LuaGlobals.v over Gen/LuaGlobals.v:
+   every luaSetRawGlobals site of the package, with how each global is removed again). *)
+From T38 Require Import Gen.LuaGlobals Model.LuaGlobals Proofs.LuaGlobalsProofs.
+
+(* for EVERY history of borrow / invoke / return operations of any number of borrowers - invocations
+   that end normally or by an early return (a WHEREEVAL filter that raised an error), several interpreters
+   out at once - an interpreter in the pool has no global beyond the ones lStatePool.New registered
+   (Gen/LuaAllow.v; c18_sandbox says those are inside the documented allow-list): no KEYS / ARGV / EVAL_CMD
+   of an earlier script, no ID / FIELDS / PROPERTIES of somebody's scanned object *)
+Theorem c18g_idle_interpreters_have_allowlist_globals :
+  forall (n : nat) (ops : list gop) (x : nat),
+  In x (g_idle (grun (ginit n) ops)) ->
+  extras_of (g_extra (grun (ginit n) ops)) x = [] /\
+  globals_of (grun (ginit n) ops) x = (lua_set_globals ++ lua_base_fns)%list.
+Proof. exact idle_interpreters_have_allowlist_globals. Qed.
+Print Assumptions c18g_idle_interpreters_have_allowlist_globals.
+
+(* every global the source sets on a borrowed interpreter is removed by a deferred statement, or - for the
+   WHEREEVAL borrower - by the Close() that puts the interpreter back *)
+Theorem c18g_every_global_is_removed_on_every_way_out : forallb entry_ok global_sets = true.
+Proof. exact source_globals_discipline. Qed.
+Print Assumptions c18g_every_global_is_removed_on_every_way_out.
+
+(* a WHEREEVAL filter that fails on its object: match leaves by the early return, Close() returns the
+   interpreter - clean; and what the invariant is for: were the removal of ID a plain statement after the
+   PCall, the early return would skip it (survives true "plain" = true) *)
+Example c18g_failed_filter_leaves_nothing :
+  let p := grun (ginit 5) [GBorrow 0 true; GInvoke 0 "Server.parseSearchScanBaseTokens" false;
+                           GInvoke 0 "whereevalT.match" false; GInvoke 0 "whereevalT.match" true; GReturn 0] in
+  g_idle p = [0; 1; 2; 3; 4] /\ g_extra p = [] /\
+  survives true "plain" = true /\ survives true "defer" = false /\
+  extras_of (g_extra (grun (ginit 5) [GBorrow 0 true; GInvoke 0 "whereevalT.match" true])) 4 = ["ARGV"].
+Proof. vm_compute. repeat split. Qed.
